@@ -211,7 +211,7 @@ func c18ModifierGen(c *engine.C) engine.Case {
 }
 
 var c18ClassNames = []string{"Foo", "FooUtil", "StringUtils", "UserService", "util", "Helper", "ServiceUtil", "OrderServiceUtils", "UtilityService"}
-var c18Returns = []string{"return-x", "no-return", "return-null", "null-then-x", "x-then-null", "return-nullable-var", "ann-Nullable", "ann-CheckForNull", "ann-both", "ann-second-position", "return-null-string-literal"}
+var c18Returns = []string{"return-x", "no-return", "return-null", "null-then-x", "x-then-null", "return-nullable-var", "ann-Nullable", "ann-CheckForNull", "ann-both", "ann-second-position", "return-null-string-literal", "ann-after-synchronized"}
 
 func c18ClassGen(c *engine.C) engine.Case {
 	classes, metas, layout := c18BuildClasses(c)
@@ -321,6 +321,13 @@ func c18BuildClasses(c *engine.C) ([]*jg.Class, map[*jg.Class][]c18Method, jg.La
 				mt.nullable = true
 			case "ann-both":
 				m.Anns = []jg.Ann{{Name: "Nullable"}, {Name: "CheckForNull"}}
+				m.Body = []jg.Stmt{jg.St(jg.T("return x;"))}
+				mt.nullable = true
+			case "ann-after-synchronized":
+				// modifiers without an annotation form of their own in front of the annotation
+				m.Mods = append(m.Mods, "synchronized")
+				m.Anns = nil
+				m.Ret = "@Nullable Object"
 				m.Body = []jg.Stmt{jg.St(jg.T("return x;"))}
 				mt.nullable = true
 			case "ann-second-position":
